@@ -22,13 +22,23 @@ def register_stores(facts):
             continue
         base = "%s::%s" % (short(rect), fn["name"])
         idx = [0]
+        from astu import inlined_body
+        from triggers import plainly_assigned_locals
+        by_pat = {f["pat"]: f for f in fns.values()}
+        fn = dict(fn, body=inlined_body(fn, by_pat, keep=("processValue", "internalCouponUpdate", "internalHll4Update", "putSlot")))
         inl = single_assignment_locals(fn)
+        # cursors into the register array: locals initialised from hllByteArr_.data() (stores through `*cursor`)
+        cursors = {d for d, v in local_decls(fn).items() if v.get("init") is not None and "hllByteArr_" in txt(v["init"]) and (v.get("t") or "").endswith("*")}
 
         def is_store(n):
             if n.get("k") == "Assign" and n.get("op") == "=":
                 l = strip(n["l"])
                 if l.get("k") in ("Index", "OpCall") and "hllByteArr_" in txt(l):
                     return txt(l, inl), n["r"]
+                if l.get("k") in ("Un", "OpCall") and l.get("op") == "*":
+                    t = strip(l.get("e") or (l.get("args") or [{}])[0])
+                    if isinstance(t, dict) and t.get("k") == "Ref" and t.get("d") in cursors:
+                        return txt(l), n["r"]
             if n.get("k") == "Call" and n.get("cname") == "putSlot" and len(n.get("args", [])) == 2:
                 return "slot(%s)" % txt(n["args"][0], inl), n["args"][1]
             return None
@@ -71,11 +81,14 @@ def merge_loops(facts):
             continue
         base = "%s::mergeHll" % short(fn.get("rect"))
         loops = []
+        from astu import inlined_body
+        by_pat = {f["pat"]: f for f in fns.values()}
+        body = inlined_body(fn, by_pat, keep=("processValue",))   # a private `keep the max` helper is seen through
 
         def visit(n, parents):
             if n.get("k") in ("RangeFor", "While", "For") and not any(p.get("k") in ("RangeFor", "While", "For") for p in parents):
                 loops.append(n)
-        walkp(fn["body"], visit)
+        walkp(body, visit)
         for i, L in enumerate(loops):
             key = "%s:loop#%d" % (base, i)
             skips = []
